@@ -44,6 +44,26 @@ class Plain:
         return "Plain(%s)" % self.nid
 
 
+def _no_wraps(fn):
+    """a decorator that does not bother with functools.wraps: the function it returns is called 'wrapper'"""
+    def wrapper(self, *a):
+        return fn(self, *a)
+    return wrapper
+
+
+class PlainAlias(Plain):
+    """the exit method is an alias of another method: the function behind __exit__ is called 'close'"""
+
+    def close(self, *a):
+        return Plain.__exit__(self, *a)
+
+    __exit__ = close
+
+
+class PlainDeco(Plain):
+    __exit__ = _no_wraps(Plain.__exit__)
+
+
 class APlain:
     def __init__(self, nid, suspend=False, falsy=False):
         self.nid = nid
@@ -66,6 +86,13 @@ class APlain:
 
     def __repr__(self):
         return "APlain(%s)" % self.nid
+
+
+class APlainAlias(APlain):
+    async def aclose(self, *a):
+        return await APlain.__aexit__(self, *a)
+
+    __aexit__ = aclose
 
 
 def exit_fn(*a):
@@ -114,11 +141,16 @@ class Builder:
         self.recs[node["id"]] = r
         t = node["t"]
         if t == "plain":
+            # (the function behind __exit__ / __aexit__ need not be called that: aliases, decorators without wraps - not in the
+            # referents analysis, which by its documentation goes by the name)
+            variant = node["id"] % 3 if getattr(self, "exit_variants", False) else 0
             if node["async"]:
-                r.obj = APlain(node["id"], suspend=(node["id"] == self.exiting_nid), falsy=node.get("falsy", False))
+                cls = [APlain, APlainAlias, APlain][variant]
+                r.obj = cls(node["id"], suspend=(node["id"] == self.exiting_nid), falsy=node.get("falsy", False))
             else:
-                r.obj = Plain(node["id"], probe=self.probe if node["id"] == self.exiting_nid else None,
-                              falsy=node.get("falsy", False))
+                cls = [Plain, PlainAlias, PlainDeco][variant]
+                r.obj = cls(node["id"], probe=self.probe if node["id"] == self.exiting_nid else None,
+                            falsy=node.get("falsy", False))
         elif t == "gcm":
             subs = [self.make(n) for n in node["opens"]]
             r.opens = subs
@@ -219,7 +251,7 @@ class Builder:
             # push(callable that is not a manager): a Python function, a builtin function (its __self__ is a module), a
             # bound method of a builtin object (its __self__ is that object, but it is no __exit__), a partial
             self.npf = getattr(self, "npf", 0) + 1
-            fn = [exit_fn, print, "fmt{}".format, functools.partial(exit_fn, 0)][self.npf % 4]
+            fn = [exit_fn, print, "fmt{}".format, functools.partial(exit_fn, 0), exit_fn.__call__][self.npf % 5]
             st.push(fn)
             r.regs.append((kind, fn))
         elif kind == "push_method":
@@ -291,12 +323,14 @@ class Builder:
 # ------------------------------------------------------------------------------------ oracle
 
 DESC = {
-    "enter_context": ("enter_context(", "push("),
+    # (enter_context(cm) and push(cm) leave the very same callback on the stack: push(cm) may be reported as either, but a
+    # manager that was entered through the stack was not "pushed" as a bare callable)
+    "enter_context": ("enter_context(",),
     "push_cm": ("enter_context(", "push("),
     "push_fn": ("push(",),
     "push_method": ("push(",),
     "callback": ("callback(",),
-    "enter_async_context": ("enter_async_context(", "push_async_exit("),
+    "enter_async_context": ("enter_async_context(",),
     "push_async_exit_cm": ("enter_async_context(", "push_async_exit("),
     "push_async_exit_fn": ("push_async_exit(",),
     "push_async_exit_method": ("push_async_exit(",),
@@ -405,6 +439,7 @@ def run_tree(req):
     obs = []
     stats = {}
     b = Builder(allow_repr_mutation=True)
+    b.exit_variants = not req.get("referents")
     rr = b.make(root)
 
     async def holder():
@@ -501,6 +536,7 @@ def run_exiting(req):
         # f_back = None (fixed in 3.10), so the running chain cannot be walked by anyone from inside __exit__
         return {"obs": [], "stats": {"skipped_cpython39_throw_breaks_f_back": 1}}
     b = Builder(exiting_nid=nid, probe=probe)
+    b.exit_variants = not req.get("referents")
     rr = b.make(root)
 
     async def holder():
